@@ -12,6 +12,7 @@ import EaselModel.Stats.MinTrace
 import EaselModel.Stats.MinDescent
 import EaselModel.Stats.WeibullReal
 import EaselModel.Stats.WeiBinnedReal
+import EaselModel.Stats.GevReal
 import EaselModel.Stats.TevdReal
 import EaselModel.Stats.ExpBinnedReal
 import EaselModel.Stats.HistExpectReal
@@ -713,5 +714,40 @@ theorem weibull_cdf_is_distribution_function (x mu w tau : ℝ) :
       else if Real.exp (tau * (w + Real.log (x - mu))) < 5e-9 then Real.exp (tau * (w + Real.log (x - mu)))
       else 1 - Real.exp (-(Real.exp (tau * (w + Real.log (x - mu))))) :=
   weiCdf_r x mu w tau
+
+/-! ## round 6: the generalized-extreme-value fits (`esl_gev.c`) -/
+
+/-- `esl_gev_FitComplete` / `esl_gev_FitCensored` (`cens = some (z, phi)`), every data set and numeric class (binary64 with libm's `log1p`
+    included): unless `brent()` hangs, the status is one of eslOK / eslENOHALT / eslERANGE / eslENORESULT, three parameters come back, and
+    eslOK means the conjugate-gradient stopping rule held. -/
+theorem gev_fit_post {α : Type} [Num α] [Log1p α] (xs : Array α) (cens : Option (Int × α)) (st : St) (ps : Array α)
+    (h : gevFittingEngine xs cens = .res st ps) :
+    (st = .ok ∨ st = .enohalt ∨ st = .erange ∨ st = .enoresult) ∧ ps.size = 3 ∧
+    (st = .ok → (gevCG xs cens).2 = .converged ∨ (gevCG xs cens).2 = .zeroDirection ∨ (gevCG xs cens).2 = .zeroGradient) :=
+  gevFit_post xs cens st ps h
+
+/-- **`gev_func` is minus the GEV log-likelihood** (ℝ, `log1p x = log(1+x)`; complete data, every sample in the main branch of
+    `esl_gev_logpdf`: `|αλ(x-μ)| ≥ 1e-12` and `1 + αλ(x-μ) > 0`): `Σ [log λ - (1+1/α)·log(1+αy) - exp(-log(1+αy)/α)]`, `y = λ(x-μ)`, `λ = e^w`. -/
+theorem gev_objective_is_neg_loglik (xs : Array ℝ) (mu w a : ℝ) (h : ∀ x ∈ xs.toList, GevMain x mu w a) :
+    gevFunc xs none #[mu, w, a] = gevNll xs.toList mu w a :=
+  gevFunc_eq xs mu w a h
+
+/-- **`gev_gradient` IS the gradient of `gev_func`** (ℝ; complete data, every sample in the main branch, `α ≠ 0`): the three components the
+    code computes are the partial derivatives (`HasDerivAt`) of the objective in `μ`, in `w = log λ` and in `α`. -/
+theorem gev_gradient_is_derivative (xs : Array ℝ) (mu w a : ℝ) (ha : a ≠ 0) (h : ∀ x ∈ xs.toList, GevMain x mu w a) :
+    ∃ g0 g1 g2 : ℝ, gevGrad xs none #[mu, w, a] = #[g0, g1, g2] ∧
+      HasDerivAt (fun m => gevNll xs.toList m w a) g0 mu ∧ HasDerivAt (fun v => gevNll xs.toList mu v a) g1 w ∧
+      HasDerivAt (fun b => gevNll xs.toList mu w b) g2 a :=
+  ⟨_, _, _, gevGrad_eq xs mu w a h, gevNll_hasDerivAt_mu xs.toList mu w a ha (fun x hx => (h x hx).2),
+    gevNll_hasDerivAt_w xs.toList mu w a ha (fun x hx => (h x hx).2), gevNll_hasDerivAt_a xs.toList mu w a ha (fun x hx => (h x hx).2)⟩
+
+/-- non-vacuity: `x = 1`, `μ = 0`, `λ = 1`, `α = 1` lies in the main branch (`αy = 1`, `1 + αy = 2`) -/
+example : ∀ x ∈ (#[(1 : ℝ)] : Array ℝ).toList, GevMain x 0 0 1 := by
+  intro x hx; simp at hx; subst hx
+  unfold GevMain gevU
+  simp only [Real.exp_zero]
+  constructor
+  · norm_num
+  · norm_num
 
 end EaselModel.Props.C11
